@@ -30,6 +30,7 @@ type cmpVec struct {
 	Pos    int      `json:"pos"`
 	Place  string   `json:"place"`
 	Tools  bool     `json:"tools"`
+	NoStub bool     `json:"nostub"` // binding self-test: drop what the subject depends on from the reduced workflow
 }
 
 type cmpOut struct {
@@ -473,7 +474,7 @@ func cmpBuildStep(v cmpVec) (composed, reduced cmpText, err error) {
 				return composed, reduced, fmt.Errorf("step catalogue has no entry %q", v.Preds[i])
 			}
 			c.add(p.body)
-			if i < v.Pos && p.stub != "" { // ids of EARLIER steps are part of what the subject depends on
+			if i < v.Pos && p.stub != "" && !v.NoStub { // ids of EARLIER steps are part of what the subject depends on
 				r.add(p.stub)
 			}
 		}
